@@ -5,6 +5,21 @@ Core-only.  Nothing in this file is a fact about dae.
 -/
 namespace DaeVerif.C19
 
+/-- Identifiers (record names, member paths, constant names, GOARCH names) are kept as lists of
+UTF-8 bytes, not as `String`: the table theorems are proved by kernel evaluation (`decide`) and
+`String` equality is very slow in the kernel, whereas comparing short lists of small numbers is not. -/
+abbrev Name := List Nat
+
+open Lean in
+/-- `n!"abc"` = the bytes of the literal, expanded at parse time to a list literal. -/
+macro:max "n!" s:str : term => do
+  let bytes := s.getString.toUTF8.toList
+  let lits := bytes.map (fun b => Syntax.mkNumLit (toString b.toNat))
+  `(([$(lits.toArray),*] : List Nat))
+
+def nameStr (n : Name) : String := String.ofList (n.map Char.ofNat)
+def nameOf (s : String) : Name := s.toUTF8.toList.map (·.toNat)
+
 /-- Signedness class of a scalar leaf. `enum` = a C enum (compatible with an unsigned Go integer of
 the same width), `recd` = an opaque record (only used for kernel-internal structs). -/
 inductive Cls where
@@ -16,7 +31,7 @@ deriving DecidableEq, Repr, Inhabited
 record, `esize` the width of one element, `count` the number of elements (1 for a scalar). `blank` marks a
 Go `_` field (explicit padding). -/
 structure Leaf where
-  path : String
+  path : Name
   off : Nat
   esize : Nat
   count : Nat
@@ -25,7 +40,7 @@ structure Leaf where
 deriving DecidableEq, Repr, Inhabited
 
 structure Rec where
-  name : String
+  name : Name
   size : Nat
   align : Nat
   leaves : List Leaf
@@ -33,7 +48,7 @@ deriving Repr, Inhabited
 
 /-- One `SEC(".maps")` definition of the C program. -/
 structure CMap where
-  name : String
+  name : Name
   mtype : Nat
   keySize : Nat
   valSize : Nat
@@ -41,16 +56,16 @@ structure CMap where
   keyType : String
   valType : String
   /-- tag of the record the key / value type names (`"struct tuples_key"` ↦ `"tuples_key"`), `""` if it is not a record -/
-  keyRec : String
-  valRec : String
+  keyRec : Name
+  valRec : Name
 deriving Repr, Inhabited
 
 /-- `common/consts/ebpf_sync_spec.json`. -/
 structure Spec where
-  matchTypes : List String
-  l4 : List (String × Nat)
-  ip : List (String × Nat)
-  outbound : List (String × Nat)
+  matchTypes : List Name
+  l4 : List (Name × Nat)
+  ip : List (Name × Nat)
+  outbound : List (Name × Nat)
 deriving Repr, Inhabited
 
 end DaeVerif.C19
